@@ -10,7 +10,8 @@
      parse_live           a strict parser for media playlists (HlsParse.v); a result means "parses completely" *)
 From Coq Require Import ZArith Bool List Lia.
 From Lal Require Import Common.LBytes Hls.HlsFloat Hls.HlsFs Hls.HlsPlaylist Hls.HlsParse Hls.HlsMuxer Hls.HlsConsistent
-  Hls.HlsInv Hls.HlsRunProofs Hls.HlsTraceProofs Hls.HlsFinalProofs Hls.HlsLossProofs Hls.HlsRecordProofs.
+  Hls.HlsInv Hls.HlsRunProofs Hls.HlsTraceProofs Hls.HlsFinalProofs Hls.HlsLossProofs Hls.HlsRecordProofs
+  Hls.HlsServer Hls.HlsServerProofs.
 Open Scope Z_scope.
 
 (* At EVERY prefix of the operation sequence: the live playlist, if present, is a complete playlist (it parses
@@ -134,6 +135,47 @@ Proof.
     vm_compute. intuition congruence.
 Qed.
 Print Assumptions c10_target_orig_refuted.
+
+(* ---- the server level: ServerManager / Group / the delayed cleanup (HlsServer.v) ----
+     srv_exec true c srv0 [] sevs   per event of the server history sevs (publish, PAT/PMT, frame, stop, housekeeping
+                                    tick, a delayed cleanup firing): (was a muxer alive for the stream name at that
+                                    instant, the layer calls the event made)
+     srv_run c sevs                 all the calls;  lower c sevs = the same history as HlsMuxer.run sees it *)
+
+(* For EVERY interleaving of publish / stop (arms the delayed cleanup) / tick (erases the idle group) / re-publish
+   (fresh group) / fire: an event removes the stream directory only at an instant at which no muxer is alive for the
+   stream name - a delayed cleanup never removes the files of a live muxer ... *)
+Theorem c10_cleanup_spares_live_muxer : forall c sevs, Forall spares_live (srv_exec true c srv0 [] sevs).
+Proof. intros c sevs. apply cleanup_spares_live_from. Qed.
+Print Assumptions c10_cleanup_spares_live_muxer.
+
+(* ... and the only event that ever removes it is a firing delayed cleanup. *)
+Theorem c10_only_delayed_cleanup_removes : forall c sevs k e r,
+  nth_error sevs k = Some e -> nth_error (srv_exec true c srv0 [] sevs) k = Some r ->
+  existsb is_removeall (snd r) = true -> e = SvFire.
+Proof. intros c sevs. apply only_fire_removes. Qed.
+Print Assumptions c10_only_delayed_cleanup_removes.
+
+(* The server makes exactly the calls of the muxer-level history `lower c sevs`: the trace theorems above hold for
+   server histories (here: the consistency of every prefix). *)
+Theorem c10_server_refines_muxer : forall c sevs, srv_run c sevs = run c (lower c sevs).
+Proof. exact srv_refines. Qed.
+Print Assumptions c10_server_refines_muxer.
+
+Theorem c10_server_inv_every_prefix : forall c sevs k,
+  cfg_ok c -> wf_evs c Clean (lower c sevs) -> live_ok c (apply_all [] (firstn k (srv_run c sevs))).
+Proof. intros c sevs k Hc Hw. rewrite srv_refines. now apply every_prefix_live_ok. Qed.
+Print Assumptions c10_server_inv_every_prefix.
+
+(* The design in which the fired closure consults the Group object it found when the timer was ARMED (seeded change
+   C10r2-2) is refuted: publish, stop, tick (that group is erased), publish (fresh group), fire removes the directory
+   while the second publication's muxer is alive; the faithful lookup by name spares it on the same history. *)
+Theorem c10_cleanup_captured_group_refuted :
+  exists c r, In r (srv_exec false c srv0 [] [SvPub; SvStop; SvTick; SvPub; SvFire]) /\
+              existsb is_removeall (snd r) = true /\ fst r = true /\
+              Forall spares_live (srv_exec true c srv0 [] [SvPub; SvStop; SvTick; SvPub; SvFire]).
+Proof. exact captured_group_removes_live. Qed.
+Print Assumptions c10_cleanup_captured_group_refuted.
 
 (* ---- non-vacuity: a history that meets the hypotheses and publishes playlists ---- *)
 Definition ex_pp : bytes := ([71; 64; 0] ++ repeat 0 185 ++ [71; 80; 1] ++ repeat 0 185)%N%list.
